@@ -30,18 +30,20 @@ def metric_grid(C, T, tier):
     g.append(('TopKAccuracy(k=%d)' % k, (lambda k=k: m.TopKAccuracy(k=k)), 'cls', {'k': k}))
   mvss = [(0,), (), (0, 1)] if tier == 'thorough' else [(0,), ()]
   lmask = tuple([0.0, NINF] + [0.0] * (C - 2))
+  lmask_fin = tuple([0.0, -4.0] + [1.5] * (C - 2))       # a finite ("soft") logit mask: added to the scores like any other
+  lmname = lambda lm: (lm is not None) if lm is not lmask_fin else 'finite'
   for mvs in mvss:
     for pp in (False, True):
       g.append(('SequenceTokenCrossEntropyLoss(mv=%s,pp=%s)' % (mvs, pp),
                 (lambda mvs=mvs, pp=pp: m.SequenceTokenCrossEntropyLoss(masked_target_values=mvs, per_position=pp)), 'seq',
                 {'mvs': mvs, 'pp': pp}))
-      for lm in (None, lmask):
-        g.append(('SequenceTokenAccuracy(mv=%s,pp=%s,lm=%s)' % (mvs, pp, lm is not None),
+      for lm in (None, lmask, lmask_fin):
+        g.append(('SequenceTokenAccuracy(mv=%s,pp=%s,lm=%s)' % (mvs, pp, lmname(lm)),
                   (lambda mvs=mvs, pp=pp, lm=lm: m.SequenceTokenAccuracy(masked_target_values=mvs, per_position=pp, logits_mask=lm)),
                   'seq', {'mvs': mvs, 'pp': pp, 'lm': lm}))
       for k in ([-1, 0, 1, 2, C + 1] if tier == 'thorough' else [-1, 2]):
-        for lm in ((None, lmask) if (tier == 'thorough' or (k == 2 and not pp)) else (None,)):
-          g.append(('SequenceTokenTopKAccuracy(k=%d,mv=%s,pp=%s,lm=%s)' % (k, mvs, pp, lm is not None),
+        for lm in ((None, lmask, lmask_fin) if (tier == 'thorough' or (k == 2 and not pp)) else (None,)):
+          g.append(('SequenceTokenTopKAccuracy(k=%d,mv=%s,pp=%s,lm=%s)' % (k, mvs, pp, lmname(lm)),
                     (lambda k=k, mvs=mvs, pp=pp, lm=lm: m.SequenceTokenTopKAccuracy(k=k, masked_target_values=mvs, per_position=pp, logits_mask=lm)),
                     'seq', {'k': k, 'mvs': mvs, 'pp': pp, 'lm': lm}))
       for oov in ((1,), (1, 2)):
